@@ -544,6 +544,17 @@ class Fill(CellModifierInput):
                 payload[0].value = self.transform.number
             if start > 0 and end > 0:
                 new_vals = new_vals[: start + 1] + payload + new_vals[end:]
+            else:
+                # the fill was read without a transform: it gets the parentheses now
+                last = new_vals[-1]
+                if isinstance(last, syntax_node.ValueNode) and last.padding is None:
+                    last.padding = syntax_node.PaddingNode(" ")
+                new_vals = (
+                    new_vals
+                    + [syntax_node.PaddingNode("(")]
+                    + payload
+                    + [syntax_node.PaddingNode(")")]
+                )
         self._tree["data"].update_with_new_values(new_vals)
 
     def _update_cell_universes(self, new_vals):
